@@ -35,7 +35,8 @@ class Exp(Transform):
 class Tanh(Transform):
     def forward(self, inputs, context=None):
         outputs = torch.tanh(inputs)
-        logabsdet = torch.log(1 - outputs ** 2)
+        # log(1 - tanh(x)^2) in a form that does not cancel (float32 gave -inf beyond |x| ~ 9).
+        logabsdet = 2.0 * (np.log(2.0) - inputs - F.softplus(-2.0 * inputs))
         logabsdet = torchutils.sum_except_batch(logabsdet, num_batch_dims=1)
         return outputs, logabsdet
 
